@@ -414,6 +414,13 @@ func (e GovEngine) setupSteps(r *Run) []Step {
 			yes(1), wait,
 			Step{Kind: "block", DtMs: 5000, N: 1, Txs: []Tx{{K: "g_submit", S: KeyName("user", 0), A: A("spec", gitem("ccoracles", "chain", "eth", "n", 2), "deposit", dep, "title", "oracles")}}},
 			yes(2), wait)
+		// ... and a raw store update over three store spaces that passes, followed by one whose stated old values are
+		// stale in all three (every space now holds a different value): the recorded failure names what was found
+		out = append(out,
+			Step{Kind: "block", DtMs: 5000, N: 1, Txs: []Tx{{K: "g_submit", S: KeyName("user", 0), A: A("spec", gitem("store", "space", "migrate|erc20|bsc", "key", "f7a1|f7a2|f7a3", "old", "||", "new", "a1a1|b2b2b2|c3"), "deposit", dep, "title", "three-spaces")}}},
+			yes(3), wait,
+			Step{Kind: "block", DtMs: 5000, N: 1, Txs: []Tx{{K: "g_submit", S: KeyName("user", 0), A: A("spec", gitem("store", "space", "migrate|erc20|bsc", "key", "f7a1|f7a2|f7a3", "old", "00|00|00", "new", "01|02|03"), "deposit", dep, "title", "three-spaces-stale")}}},
+			yes(4), wait)
 		r.Probe("gov-prelude-panicking-handler")
 	}
 	return out
